@@ -59,6 +59,9 @@ def value_text(spec, t, style):
         return repr(float(v))
     if t == 1:
         return "1" if v else "0"
+    if style.get("value_hex2c") and t in SIGNED_WIDTH and int(v) < 0:
+        # negative values of signed objects written the way many EDS editors do: two's complement in hexadecimal
+        return "0x%X" % (int(v) + (1 << SIGNED_WIDTH[t]))
     return num(int(v), style)
 
 
